@@ -286,18 +286,12 @@ class Module(nn.Module):
                     + " Make sure the parameter is registered before registering a prior."
                 )
 
-            def closure_new(module: nn.Module) -> Tensor:
-                return getattr(module, param)
-
-            closure = closure_new
+            closure = _ParameterClosure(param)
 
             if setting_closure is not None:
                 raise RuntimeError("Must specify a closure instead of a parameter name when providing setting_closure")
 
-            def setting_closure_new(module: Module, val: Union[Tensor, float]) -> None:
-                module.initialize(**{param: val})
-
-            setting_closure = setting_closure_new
+            setting_closure = _ParameterSettingClosure(param)
 
         else:
             closure = param_or_closure
@@ -570,6 +564,26 @@ def _extract_named_added_loss_terms(module, memo=None, prefix=""):
         submodule_prefix = prefix + ("." if prefix else "") + mname
         for name, strategy in _extract_named_added_loss_terms(module=module_, memo=memo, prefix=submodule_prefix):
             yield name, strategy
+
+
+class _ParameterClosure(object):
+    """`module -> module.<param>` for priors registered on a parameter by name (a picklable object, not a local function)"""
+
+    def __init__(self, param: str) -> None:
+        self.param = param
+
+    def __call__(self, module: nn.Module) -> Tensor:
+        return getattr(module, self.param)
+
+
+class _ParameterSettingClosure(object):
+    """`(module, value) -> module.initialize(<param>=value)` for priors registered on a parameter by name"""
+
+    def __init__(self, param: str) -> None:
+        self.param = param
+
+    def __call__(self, module: Module, val: Union[Tensor, float]) -> None:
+        module.initialize(**{self.param: val})
 
 
 def _extract_named_priors(
